@@ -980,7 +980,11 @@ fn shrink_book(mut b: Book, kind: &str, sig: &str, drv: &mut Driver) -> Book {
 fn gen_phys_cells(rng: &mut Rng, env: &EnvD) -> Vec<XlsCell> {
     let mut cells = vec![];
     let n = *rng.pick(&[1usize, 2, 4, 8, 20]);
-    let mut row = *rng.pick(&[0u16, 1, 300, 65530]);
+    // Bounding-box discipline (D37): all rows lie in a band of ≤ 41 rows and all columns below 32, so that even
+    // after one damaged row or column field the dense range stays below 2^22 cells. A STRING record without a
+    // FORMULA lands at (0,0): it is only generated when the band starts at row 0.
+    let base = *rng.pick(&[0u16, 0, 1, 300, 65490]);
+    let mut row = base;
     let mut col = 0u16;
     for _ in 0..n {
         if rng.chance(1, 3) {
@@ -1006,7 +1010,7 @@ fn gen_phys_cells(rng: &mut Rng, env: &EnvD) -> Vec<XlsCell> {
                     _ => Cached::Blank,
                 },
             },
-            8 => CellV::Raw(xlsw::STRING, xlsw::xl_unicode_string(&gen_string(rng), None, rng)), // STRING with no FORMULA before it
+            8 if base == 0 => CellV::Raw(xlsw::STRING, xlsw::xl_unicode_string(&gen_string(rng), None, rng)), // STRING with no FORMULA before it
             9 => CellV::Raw(xlsw::MERGECELLS, {
                 let k = rng.below(3) as u16;
                 let mut d = k.to_le_bytes().to_vec();
@@ -1018,7 +1022,7 @@ fn gen_phys_cells(rng: &mut Rng, env: &EnvD) -> Vec<XlsCell> {
         };
         let width = if let CellV::MulRk(r) = &v { r.len() as u16 } else { 1 };
         cells.push(XlsCell { row, col, xf, v });
-        col = col.saturating_add(width + rng.below(2) as u16).min(60000);
+        col = (col + width + rng.below(2) as u16).min(28);
     }
     cells
 }
